@@ -1,5 +1,6 @@
 import SpoxModel.Lemmas.Subgraph
 import SpoxModel.Lemmas.SubgraphNested
+import SpoxModel.Model.CallForm
 import SpoxModel.Generated.SubgraphSpecs
 import SpoxModel.Generated.CallbackSites
 import SpoxModel.Generated.CallGraphData
@@ -74,6 +75,18 @@ theorem attr_wiring_good :
           && table.any (fun t => t.1 == e.1 && t.2.1 == e.2.1
               && (tracedCallbacks t.2.2).all (fun p => e.2.2.any (fun w => w.2.2 == p))
               && e.2.2.length == (tracedCallbacks t.2.2).length)) = true := by
+  decide
+
+/-- **How `subgraph` uses its callback.** Inside `spox._graph.subgraph` the callback parameter occurs only as
+    `callable(fun)`, as the one call `fun(*<arguments>)` (a single starred argument, no keywords — Python's own
+    binding decides what is accepted, `CallForm.accepts`), and as the argument of `_with_constructor`; no
+    attribute of the callable is read, it is handed to no other function (no signature pre-check), it is
+    not rebound, and `_graph.py` imports no introspection module. -/
+theorem callback_use_good :
+    Generated.SubgraphInventory.callbackUses.all
+        (fun u => ["call:starred", "arg-of:callable", "arg-of:_with_constructor"].contains u) = true
+      ∧ Generated.SubgraphInventory.callbackUses.count "call:starred" = 1
+      ∧ Generated.SubgraphInventory.introspectionImports = [] := by
   decide
 
 /-- Call sites, other than `subgraph`, that could reach a stored callback — from the source. -/
@@ -436,6 +449,112 @@ theorem types_arg_validated (ta : TypesArg) (cb : Nat) (beh : CbBehaviour) (w : 
       ∧ ((∀ ts, ta ≠ .ok ts) → subgraphEntry ta cb beh w = (.error .typeError, w)
           ∧ (subgraphEntry ta cb beh w).2.count cb = w.count cb) := by
   cases ta <;> simp [subgraphEntry]
+
+/-! ## Callable forms
+
+`subgraph` calls `fun(*ins)` with exactly the prescribed arguments; what Python's call accepts must be
+accepted (and invoked once with those arguments), what it rejects is a TypeError with the body never
+entered. `CallForm.accepts` is Python's binding rule for `n` positional arguments; the driver applies
+`CallForm.effective` to the signature of every callback form the harness constructs (tie H: ≈ 30 forms ×
+constructors × modules, and Python itself is asked with a dummy of the same form). -/
+
+open CallForm in
+/-- An exact-arity callable is accepted; so is every callable obtained from an accepted one by adding
+    parameters with defaults (`lambda i, c, acc, k=k: …`), keyword-only parameters that are defaulted or
+    bound, or a `*args`. -/
+theorem form_defaults_irrelevant (s : Sig) (n k : Nat) (h : accepts s n = true) :
+    accepts (exact n) n = true
+      ∧ accepts { s with npos := s.npos + k, ndef := s.ndef + k } n = true
+      ∧ accepts { s with varargs := true } n = true := by
+  have h' : s.npos - s.ndef ≤ n + s.bound ∧ (s.varargs = true ∨ n + s.bound ≤ s.npos) ∧ s.kwreq ≤ s.kwbound := by
+    simpa [accepts, and_assoc] using h
+  obtain ⟨h1, h2, h3⟩ := h'
+  refine ⟨by simp [accepts, exact], ?_, ?_⟩
+  · have a1 : s.npos + k - (s.ndef + k) ≤ n + s.bound := by omega
+    have a2 : s.varargs = true ∨ n + s.bound ≤ s.npos + k := by
+      rcases h2 with hv | hle
+      · exact Or.inl hv
+      · exact Or.inr (by omega)
+    simp [accepts, a1, a2, h3]
+  · simp [accepts, h1, h3]
+
+open CallForm in
+/-- Exactly when Python accepts: at least the required, at most all positional parameters (unless
+    `*args`), every required keyword-only parameter bound. -/
+theorem form_accepts_iff (s : Sig) (n : Nat) :
+    accepts s n = true ↔
+      s.npos - s.ndef ≤ n + s.bound ∧ (s.varargs = true ∨ n + s.bound ≤ s.npos) ∧ s.kwreq ≤ s.kwbound := by
+  simp [accepts, and_assoc]
+
+open CallForm in
+/-- The tempting pre-check `len(positional) == n` is wrong in both directions: it rejects a callback
+    with a defaulted extra parameter that Python accepts, and accepts one with a required keyword-only
+    parameter that Python rejects. -/
+theorem form_naive_check_counterexample :
+    (accepts ⟨4, 1, false, 0, 0, 0⟩ 3 = true ∧ naiveCheck ⟨4, 1, false, 0, 0, 0⟩ 3 = false)
+      ∧ (accepts ⟨3, 0, false, 1, 0, 0⟩ 3 = false ∧ naiveCheck ⟨3, 0, false, 1, 0, 0⟩ 3 = true)
+      ∧ (accepts ⟨0, 0, true, 0, 0, 0⟩ 3 = true ∧ naiveCheck ⟨0, 0, true, 0, 0, 0⟩ 3 = false) := by
+  decide
+
+open CallForm in
+/-- **Accepted forms are invoked once with the prescribed arguments; rejected forms are a TypeError
+    with the body never entered.** -/
+theorem form_call (s : Sig) (types : List Ty) (cb : Nat) (beh : CbBehaviour) (w : World) :
+    (accepts s types.length = true →
+        subgraphCallSig s types cb beh w = subgraphCall types cb beh w)
+      ∧ (accepts s types.length = false →
+        (subgraphCallSig s types cb beh w).1 = .error .typeError
+          ∧ (subgraphCallSig s types cb beh w).2.events = w.events
+          ∧ (subgraphCallSig s types cb beh w).2.count cb = w.count cb) := by
+  constructor
+  · intro h; simp [subgraphCallSig, effective, h]
+  · intro h
+    simp [subgraphCallSig, effective, h, subgraphCall, CbBehaviour.callable, World.count]
+
+open CallForm in
+/-- The callbacks of a constructor call as `subgraph` sees them, given the signature of each (`none`: the
+    harness' `*args` default) and the number of arguments each will be called with. -/
+def withSigs (sigs : String → Option Sig) (ns : String → Nat) (cbs : Callbacks) : Callbacks :=
+  fun nm => ((cbs nm).1, match sigs nm with
+    | some s => effective s (ns nm) (cbs nm).2
+    | none => (cbs nm).2)
+
+open CallForm in
+/-- **Forms at the constructor.** If Python's call accepts every callback's signature, the constructor
+    behaves exactly as for plain callbacks — every `args_prescribed_*`, `called_once`, `out_count`
+    statement carries over verbatim, whatever the callable's form. -/
+theorem form_construct_accepted (spec : CtorSpec) (env : Env) (cbs : Callbacks) (w : World)
+    (sigs : String → Option Sig) (ns : String → Nat)
+    (hacc : ∀ nm s, sigs nm = some s → accepts s (ns nm) = true) :
+    construct spec env (withSigs sigs ns cbs) w = construct spec env cbs w := by
+  have : withSigs sigs ns cbs = cbs := by
+    funext nm
+    unfold withSigs
+    cases h : sigs nm with
+    | none => rfl
+    | some s => simp [effective, hacc nm s h]
+  rw [this]
+
+open CallForm in
+/-- If the type expressions evaluate, every callback returns Vars, and Python's call rejects the
+    signature of at least one of them, the constructor raises TypeError. -/
+theorem form_construct_rejected (spec : CtorSpec) (env : Env) (cbs : Callbacks) (w : World)
+    (sigs : String → Option Sig) (ns : String → Nat)
+    (hev : ∀ p ∈ spec.subgraphs, ∃ ts, evalList env p.2 = .ok ts)
+    (hgood : ∀ p ∈ spec.subgraphs, (cbs p.1).2.good = true)
+    (hex : ∃ p ∈ spec.subgraphs, ∃ s, sigs p.1 = some s ∧ accepts s (ns p.1) = false) :
+    (construct spec env (withSigs sigs ns cbs) w).1 = .error .typeError := by
+  apply bad_callbacks_typeerror spec env _ w hev
+  · intro p hp
+    unfold withSigs
+    cases h : sigs p.1 with
+    | none => exact Or.inl (hgood p hp)
+    | some s =>
+      cases ha : accepts s (ns p.1) with
+      | true => left; simpa [effective, ha] using hgood p hp
+      | false => right; simp [effective, ha, CbBehaviour.bad]
+  · obtain ⟨p, hp, s, hs, ha⟩ := hex
+    exact ⟨p, hp, by simp [withSigs, hs, effective, ha, CbBehaviour.bad]⟩
 
 /-! ## Nested control flow
 
